@@ -531,3 +531,92 @@ def _mut_disconnect_reports_any(fn):
             n.value = ast.parse('next(iter(self._nodes), None)').body[0].value
             cnt += 1
     return cnt
+
+
+# ------------------------------------------------------------------------------------------------ _maybeBind (C14: the node stays reachable)
+@unit(name='transport.maybeBind', relpath=TRMOD, qual=['%s._maybeBind' % CLS], props=['C14'],
+      cases=[dict(bound=b, ready=r) for b, r in ((True, True), (False, True), (False, False))],
+      doc='O14.7 (transport side): whenever the listening server is not bound - never bound yet, or unbound again by a failed accept or an error '
+          'on the listening socket (unit tcpserver.accept) - and the node is not read-only, the next tick after bindRetryTime binds it again; a bound, '
+          'ready transport does not touch the server; a failed attempt is counted and reported as TransportNotReadyError only when the '
+          'configured number of retries is exhausted',
+      assumptions=['the server object reports its state truthfully (unit tcpserver.accept)'])
+def tr_maybe_bind(ctx, bound, ready):
+    tr, conns, members = mk_transport(ctx)
+    tmod = source.load(TRMOD)
+    smod = source.load('pysyncobj/tcp_server.py')
+    binds = []
+    ro = FreshBool('selfIsReadonly')
+    last, now = FreshReal('lastBindAttempt'), FreshReal('now')
+    state_bound = 1
+    st_cls = smod.classes.get('SERVER_STATE')
+    # the real constants of tcp_server.SERVER_STATE
+    consts = {}
+    if st_cls is not None:
+        for st_ in st_cls.node.body:
+            if isinstance(st_, ast.Assign) and isinstance(st_.targets[0], ast.Name):
+                try:
+                    consts[st_.targets[0].id] = ast.literal_eval(st_.value)
+                except Exception:
+                    pass
+    if 'BINDED' not in consts or 'UNBINDED' not in consts:
+        raise Undecided('SERVER_STATE constants not found')
+    fails = FreshBool('bindFails')
+
+    def srv_bind(I, s, a, k):
+        binds.append(1)
+        if ctx.decide(fails, 'bind-raises'):
+            I.raise_('OSError', errno=98)
+        c_ = ctx.cell(s)
+        ctx.setcell(s, c_.with_field('_TcpServer__state', consts['BINDED']))
+        return None
+    srv = ctx.alloc(PObj('TcpServer', {'_TcpServer__state': consts['BINDED'] if bound else consts['UNBINDED']}))
+    ev = ctx.alloc(PObj('Event', {}))
+    retries, attempts = FreshInt('maxBindRetries'), FreshInt('bindAttempts')
+    ctx.assume(And(retries >= 0, attempts >= 0))
+    c = ctx.cell(tr)
+    conf = ctx.cell(ctx.cell(c.fields['_syncObj']).fields['conf'])
+    retry_t = FreshReal('bindRetryTime')
+    ctx.assume(retry_t >= 0)
+    ctx.setcell(ctx.cell(c.fields['_syncObj']).fields['conf'], conf.with_field('bindRetryTime', retry_t).with_field('maxBindRetries', retries))
+    # TCPTransport.__init__ creates the server exactly for a node with an own address; a read-only node has none and is ready at once
+    if ctx.decide(ro, 'read-only-node'):
+        srv_field = None
+        if not ready:
+            return
+    else:
+        srv_field = srv
+    ctx.setcell(tr, c.with_field('_ready', ready).with_field('_selfIsReadonlyNode', ro).with_field('_lastBindAttemptTime', last)
+                .with_field('_server', srv_field).with_field('_bindAttempts', attempts).with_field('_bindOverEvent', ev))
+    reg = dict(REG)
+    reg.update({'TcpServer.bind': srv_bind, 'Event.set': lambda I, s, a, k: None})
+    ext = {'functools.partial': partial_ext, 'monotonicTime': lambda I_, a, k: now, 'monotonic.monotonic': lambda I_, a, k: now}
+    I = Interp(ctx, registry=reg, externals=ext, inline=INL, hooks={'call:cb': cb_hook, 'transport': tr, 'modules': [TRMOD, 'pysyncobj/tcp_server.py'],
+                                                                    'bases': {CLS: ('Transport',)}})
+    fn, ci = tmod.find('%s._maybeBind' % CLS)
+    try:
+        I.call_funcdef(fn, tmod, CLS, tr, [], {}, None, '%s._maybeBind' % CLS)
+        outcome = 'ok'
+    except PyExc as e:
+        outcome = e.typ
+    ctx.prove(outcome in ('ok', 'TransportNotReadyError'), 'C14:O14.7.bind.only-TransportNotReadyError-escapes', info=outcome)
+    f = ctx.cell(tr).fields
+    due = now >= last + retry_t
+    if srv_field is None:
+        ctx.prove(len(binds) == 0 and outcome == 'ok', 'C14:O14.7.bind.read-only-node-binds-nothing', info=outcome)
+        return
+    if bound and ready:
+        ctx.prove(len(binds) == 0 and outcome == 'ok', 'C14:O14.7.bind.bound-and-ready-transport-leaves-the-server-alone')
+        return
+    ctx.prove(len(binds) <= 1, 'C14:O14.7.bind.at-most-one-attempt-per-tick')
+    if binds:
+        ctx.prove(And(Not(ro), due), 'C14:O14.7.bind.attempt-only-when-due-and-not-readonly')
+        ctx.prove(Eq(f['_lastBindAttemptTime'], now), 'C14:O14.7.bind.attempt-time-recorded')
+        if outcome == 'ok':
+            ctx.prove(Implies(Not(fails), Eq(f['_ready'], True)), 'C14:O14.7.bind.successful-bind-makes-the-transport-ready')
+        else:
+            ctx.prove(And(fails, retries > 0, attempts + 1 >= retries), 'C14:O14.7.bind.not-ready-error-only-after-the-configured-retries')
+    else:
+        # the server is not bound (never was, or was unbound by a failed accept / socket error): it must be bound again once the retry time is over
+        ctx.prove(Or(ro, Not(due)), 'C14:O14.7.bind.unbound-server-is-bound-again-when-due', info='server bound: %s, transport ready flag: %s' % (bound, ready))
+        ctx.prove(outcome == 'ok', 'C14:O14.7.bind.no-attempt-no-error')
